@@ -27,7 +27,10 @@ RULE = (
     "turn).  'header_fields': on a fixed 50-octet payload every header field over its complete range, one at a time (7 "
     "defined SAPs, FSN 0..15, N(S) 0..7, F, S, group, DPF independent of the A bit, colour code 0..15, timeslot, LLID "
     "extremes, preambles 0..16) plus the cross product DPF x F x S x group x {0,1} preambles, all 6 slices.  "
-    "'short_boundary_payloads': SAP UDP/IP header compression, payload lengths 0..12, octets {00,01,7F,80,81,FF} on two of "
+    "'structured_payloads': a short record repeated (period = each block size in use, i.e. identical adjacent non-constant "
+    "blocks, and periods 1, 2, 3, 7) at 2, 3, 6 blocks, and the marker octets of the enclosing layers (the 10 SYNC words, the "
+    "call's own data header, a preamble CSBK) placed at the start, at and across a block boundary, at offset 13 and at the "
+    "end of a 4-block payload, all 6 slices.  'short_boundary_payloads': SAP UDP/IP header compression, payload lengths 0..12, octets {00,01,7F,80,81,FF} on two of "
     "the first six positions (positions (3,4): all 36 pairs x 2 fills; other position pairs: 3 sampled pairs), all 6 slices.  "
     "'random': Hypothesis draws of all fields, lengths 0..1500 weighted towards block boundaries, payload bytes random / all "
     "0x00 / all 0xFF / all 0x80 / hash-expanded.  Distinct = (rate, mode, length, blocks, pad, preambles, colour code, "
@@ -520,10 +523,58 @@ def drv_short_boundary(ctx: Ctx, sub: SubCheck):
     ctx.tally.notes.append("short_boundary_payloads: directed enumeration, SAP UDP/IP compression, lengths 0..12, boundary octets {00,01,7F,80,81,FF} on two of the first six positions")
 
 
+# ---------------------------------------------------------------------------------------------- directed: structured payloads
+
+
+def drv_structured(ctx: Ctx, sub: SubCheck):
+    """Structured payload content: (a) a short record repeated - period = every block size in use (10, 12, 16, 18, 22, 24
+    octets: identical adjacent blocks with non-constant content when the period equals the slice's block size) and periods
+    1, 2, 3, 7 - at lengths of 2, 3 and 6 blocks (exact fit and one octet short); (b) the marker octets of the enclosing
+    layers placed inside the payload - each of the 10 SYNC words of table 9.2, the 12 octets of a data header and of a
+    preamble CSBK of the same call, a slot-type word - at the start, at a block boundary, at offset 13 and near the end of a
+    4-block payload.  Identical in both tiers."""
+    L = _lib()
+    from okdmr.dmrlib.etsi.layer2.elements.sync_patterns import SyncPatterns
+
+    markers = {f"sync_{m.name}": m.value.to_bytes(6, "big") for m in SyncPatterns if m.name != "EmbeddedSignalling"}
+    items = []
+    k = 0
+    for si, (rate, conf) in enumerate(SLICES):
+        per = dmr_ref.octets_per_block(rate, conf)
+        cap = lambda n: n * per - 4
+        base = {"rate": rate, "confirmed": conf, "cc": 1 + si, "ts": 1 + si % 2, "dst": 2305001, "src": 2305002, "group": False, "sap": "IP_PacketData", "full": 1, "resync": 0,
+                "ns": 0, "fsn": 8 if conf else 0}
+        for period in (1, 2, 3, 7, 10, 12, 16, 18, 22, 24):
+            record = expand_payload({"prng": 7000 + period, "len": period})
+            for n_blocks in (2, 3, 6):
+                for length in (cap(n_blocks), cap(n_blocks) - 1):
+                    k += 1
+                    payload = (record * (length // period + 1))[:length]
+                    items.append(({**base, "payload": {"hex": payload.hex()}, "preambles": k % 3}, ["record_period_equals_block_size" if period == per else f"record_period_{period}"]))
+        # markers of the enclosing layers
+        hdr = L["DataHeader"](dpf=L["DataPacketFormats"].DataPacketConfirmed if conf else L["DataPacketFormats"].DataPacketUnconfirmed, sap_identifier=L["SAPIdentifier"].IP_PacketData,
+                              is_response_requested=conf, pad_octet_count=0, llid_destination=2305001, llid_source=2305002, full_message_flag=L["FullMessageFlag"](1), blocks_to_follow=4,
+                              resynchronize_flag=L["ResynchronizeFlag"](0), fragment_sequence_number=8 if conf else 0)
+        pre = L["CSBK"](csbko=L["CsbkOpcodes"].PreambleCSBK, source_address=2305002, target_address=2305001, blocks_to_follow=5, target_address_is_individual=True)
+        local = dict(markers)
+        local["own_data_header"] = bytes(hdr.as_bits().tobytes())
+        local["preamble_csbk"] = bytes(pre.as_bits().tobytes())
+        length = cap(4)
+        fill = expand_payload({"prng": 8000 + si, "len": length})
+        for mname, mk in local.items():
+            for pname, off in (("start", 0), ("block_boundary", per), ("straddling_block_boundary", per - 3), ("offset_13", 13), ("near_end", length - len(mk) - 1), ("end", length - len(mk))):
+                k += 1
+                payload = bytearray(fill)
+                payload[off : off + len(mk)] = mk
+                items.append(({**base, "payload": {"hex": bytes(payload[:length]).hex()}, "preambles": k % 2}, [f"marker_{mname}", f"marker_at_{pname}"]))
+    _run_cases(ctx, sub, items)
+
+
 SUBCHECKS = [
     SubCheck("lengths", oracle, drv_lengths, "enumerated payload lengths (all lengths of 1..8 blocks, boundary triples for 26 block counts up to 127; thorough: every length 0..1500) x 3 rates x 2 modes x preamble counts {0,1,2,16} through generator -> bytes -> receiver"),
     SubCheck("crc_extremes", oracle, drv_crc_extremes, "directed: payloads constructed so that the packet CRC-32 is 00000000 / FFFFFFFF / 00000001 / 80000000 or an intermediate confirmed block's CRC-9 field is 000 / 1FF"),
     SubCheck("header_fields", oracle, drv_header_fields, "directed: every header field over its complete range (SAP, FSN, N(S), F, S, group, DPF vs A, colour code, timeslot, LLID extremes, preambles 0..16) on a fixed 50-octet payload x 6 slices"),
+    SubCheck("structured_payloads", oracle, drv_structured, "directed: short records repeated (period = every block size in use -> identical adjacent blocks; periods 1,2,3,7) and marker octets of the enclosing layers (10 SYNC words, own data header, preamble CSBK) inside the payload at start / block boundary / offset 13 / end, 6 slices"),
     SubCheck("short_boundary_payloads", oracle, drv_short_boundary, "directed: SAP UDP/IP compression, payload lengths 0..12, first six octets from {00,01,7F,80,81,FF} on two positions at a time ((3,4) complete) x 3 rates x 2 modes"),
     SubCheck("random", oracle, drv_random, "Hypothesis: all case fields drawn, lengths weighted to block boundaries"),
 ]
